@@ -516,6 +516,40 @@ def r9(ctx, facts):
         raise AnchorLost("VectorIterator::next_variable_length_elem: no FrameSlice::read_n_bytes call found")
 
 
+NULL_WRITERS = {
+    # who may encode "no value": only the carriers whose Rust value says so
+    "set_null": ("Option<T>::serialize[SerializeValue]", "value::serialize_tuple_like", "value::serialize_udt"),
+    "set_unset": ("MaybeUnset<V>::serialize[SerializeValue]", "Unset::serialize[SerializeValue]"),
+}
+
+
+def r10(ctx, facts):
+    r = ctx.rule("R10", "a value that is present is never encoded as null / unset: CellWriter::set_null and set_unset are called only by the carriers of absence", floor=5)
+    W = "scylla_cql_core::serialize::writers::CellWriter::<'buf>::"
+    for meth, allowed in NULL_WRITERS.items():
+        seen = set()
+        for b, bb in facts.callers_of(W + meth):
+            if b.crate not in ("scylla_cql_core", "scylla_cql", "scylla") or bb not in b.live_blocks:
+                continue
+            key = fn_short(b.path)
+            if key in seen:
+                continue
+            seen.add(key)
+            ok = key.endswith(allowed) or any(key.startswith(a) for a in allowed)
+            r.instance("%s-caller:%s" % (meth, key), ok,
+                       "%s() is called from %s: only Option / MaybeUnset / Unset and the null-padding of short tuples and UDTs may write an absent cell; an EMPTY collection, "
+                       "string or blob is a value of its own (`[0,0,0,0]` / length 0), distinct from null wherever it is nested" % (meth, key), b.term_span(bb))
+        if not seen:
+            raise AnchorLost("no caller of CellWriter::%s found" % meth)
+    # Option: null only for None
+    for b in facts.find(r"^<core::option::Option<T> as scylla_cql_core::serialize::value::SerializeValue>::serialize$"):
+        dj = dj_of(b, facts)
+        for c in b.calls_to(W + "set_null"):
+            sts = dj.states_at(c.bb)
+            ok = bool(sts) and all(any(k[0] == "disc" and k[1][0] == 1 and in_set(v, {0}) for k, v in st.items()) for st in sts)
+            r.instance("option-null-only-for-none", ok, "Option<T>::serialize writes null where `self` is not known to be None", c.span)
+
+
 def check(ctx):
     facts = inline_view(ctx.facts("default"))
     A = Accept(facts)
@@ -524,7 +558,7 @@ def check(ctx):
         tabs = r1(ctx, facts, A)
     except AnchorLost as ex:
         ctx.rule("R1x", "anchors").fail("anchor-lost", str(ex))
-    for fn in ((lambda c, f: r2(c, f, tabs)) if tabs else None, r3, r4, r5, r6, r7, r8, r9):
+    for fn in ((lambda c, f: r2(c, f, tabs)) if tabs else None, r3, r4, r5, r6, r7, r8, r9, r10):
         if fn is None:
             continue
         try:
